@@ -97,8 +97,9 @@ class Evaluator:
 
     def __init__(self, fn, *, fields=None, props=None, rec_names=None,
                  node_param=None, assume_len=None, self_is_node=False,
-                 plain=False):
+                 plain=False, assume=None):
         self.fn = fn
+        self.assume = assume or {}       # parameter name -> abstract value
         self.sig = signature(fn, plain)
         self.fields = set(fields or ())
         self.props = props or {}          # name -> callable(evaluator) -> value
@@ -144,6 +145,8 @@ class Evaluator:
         if n == self.sig.kwarg:
             return ("kwargs",)
         if n in self.sig.params or n == self.sig.node_name:
+            if n in self.assume:
+                return self.assume[n]
             return ("param", n)
         return ("global", n)
 
@@ -647,6 +650,15 @@ def _truth(v):
     if v[0] == "unop" and v[1] == "Not":
         t = _truth(v[2])
         return None if t is None else not t
+    if v[0] == "boolop":
+        ts = [_truth(x) for x in v[2]]
+        if v[1] == "And":
+            if any(t is False for t in ts):
+                return False
+            return True if all(t is True for t in ts) else None
+        if any(t is True for t in ts):
+            return True
+        return False if all(t is False for t in ts) else None
     if v[0] == "compare" and len(v[1]) == 1:
         op, left, right = v[1][0], v[2], v[3][0]
         if left[0] == "const" and right[0] == "const":
@@ -666,6 +678,24 @@ def _truth(v):
                 and left[0] in ("index", "elem") and left[1][0] == "field":
             return op == "IsNot"
     return None
+
+
+def facts_of(v, pol):
+    """the atomic facts a condition establishes when it evaluates to *pol*:
+    yields (value, polarity) with negations pushed inwards -- a true
+    conjunction makes every conjunct true, a false disjunction every disjunct
+    false; what cannot be split (a true disjunction, a false conjunction) is
+    yielded whole"""
+    if isinstance(v, tuple) and v:
+        if v[0] == "unop" and v[1] == "Not":
+            yield from facts_of(v[2], not pol)
+            return
+        if v[0] == "boolop" and ((v[1] == "And" and pol)
+                                 or (v[1] == "Or" and not pol)):
+            for x in v[2]:
+                yield from facts_of(x, pol)
+            return
+    yield v, pol
 
 
 def _src(n):
@@ -689,7 +719,8 @@ def set_inline_hook(hook):
 
 
 def summarize(fn, *, fields=(), props=None, loop_mode="1", assume_len=None,
-              rec_names=None, self_is_node=False, node_param=None, plain=False):
+              rec_names=None, self_is_node=False, node_param=None, plain=False,
+              assume=None):
     """All feasible path summaries of *fn*."""
     if _INLINE_HOOK is not None:
         fn = _INLINE_HOOK(fn)
@@ -697,7 +728,7 @@ def summarize(fn, *, fields=(), props=None, loop_mode="1", assume_len=None,
     for items in cfg.paths(fn, loop_mode):
         ev = Evaluator(fn, fields=fields, props=props, assume_len=assume_len,
                        rec_names=rec_names, self_is_node=self_is_node,
-                       node_param=node_param, plain=plain)
+                       node_param=node_param, plain=plain, assume=assume)
         ps = ev.run_path(items)
         if ps is not None:
             out.append(ps)
